@@ -128,6 +128,10 @@ def fresh_probe_src(k):
 
 
 PROBES += [(fresh_probe_src(k), None) for k in range(len(FRESH))]
+PARSER_ALL = len(PROBES)     # every front-end probe in one evaluation (each snippet through eval, so one refusal does not hide the others)
+_PARSER_SNIPPETS = [PROBES[i][0] for i in range(N_BEHAVIOUR_PROBES - 6, N_BEHAVIOUR_PROBES)] + [
+    "var let_ = 1, static_ = 2; let_ + static_", "(function(get, set){ return get + set; })(1, 2)", "var x8 = {async: 1, await: 2, yield: 3}; x8.async + x8.await + x8.yield", "var a8 = [1, 2, 3]; var s8 = 0; for (var v8 of a8) { s8 += v8; } s8"]
+PROBES.append(("[" + ", ".join(json.dumps(x) for x in _PARSER_SNIPPETS) + "].map(function(s9){ try { return String(eval(s9)); } catch (e9) { return 'E:' + e9.name; } }).join(';')", None))
 FRESH_ALL = len(PROBES)      # every fresh-object expression looked at in one evaluation
 # (an array literal that continues with a member access is wrapped: the parser's nested-array fast
 # path does not accept `[[1].x]`)
@@ -320,7 +324,8 @@ def gen_op(rng, ctxs, vals, allow_reenter):
     if r < 0.28 and cfg["T_work"]:
         return {"op": "busy_ok", "ctx": c, "iters": int(0.45 * cfg["T_work"] / 45)}
     if r < 0.36:
-        return {"op": "probe", "ctx": c, "probe": FRESH_ALL if rng.random() < 0.4 else rng.randrange(len(PROBES))}
+        r2 = rng.random()
+        return {"op": "probe", "ctx": c, "probe": FRESH_ALL if r2 < 0.35 else (PARSER_ALL if r2 < 0.6 else rng.randrange(len(PROBES)))}
     if r < 0.44:
         return {"op": "regex_reuse", "ctx": c, "stall": rng.choice((0.0, 0.5, 3.0))}
     if r < 0.50:
